@@ -249,12 +249,12 @@ theorem lint_all_ended (m : Model) (P : ProcInfo) (hP : 0 < P.appid) (evs : List
     channel). -/
 def demoNosv : List Ev :=
   [ .typeCreate 5 123456 true, .taskCreate false 9 5, .taskCreate true 10 5,
-    .task 0 .x 9 0, .task 1 .x 10 3, .task 0 .p 9 0, .task 0 .x 10 4, .ssPush 0 12, .ssPop 0 12,
+    .task 0 .x 9 0, .task 1 .x 10 3, .task 0 .p 9 0, .task 0 .x 10 4, .ssPush 0 (Ovni.Generated.Nosv.stTaskBody + 1), .ssPop 0 (Ovni.Generated.Nosv.stTaskBody + 1),
     .task 0 .e 10 4, .task 0 .r 9 0, .task 0 .e 9 0, .task 1 .e 10 3, .task 1 .x 9 0 ]
 
 def demoNanos6 : List Ev :=
   [ .typeCreate 1 99 true, .taskCreate false 1 1, .taskCreate false 2 1,
-    .task 0 .x 1 0, .ssPush 0 4, .task 0 .x 2 0, .task 0 .e 2 0, .ssPop 0 4, .task 0 .e 1 0 ]
+    .task 0 .x 1 0, .ssPush 0 (Ovni.Generated.Nanos6.stTaskBody + 3), .task 0 .x 2 0, .task 0 .e 2 0, .ssPop 0 (Ovni.Generated.Nanos6.stTaskBody + 3), .task 0 .e 1 0 ]
 
 def P0 : ProcInfo := ⟨7, 2⟩
 
@@ -263,7 +263,7 @@ example : ELegal .nosv EAbs.init demoNosv := (event_accept_iff .nosv P0 (by deci
 example : eaccepts .nanos6 P0 demoNanos6 = true := by decide
 example : ∀ ev ∈ demoNosv, ev.clean .nosv := by
   intro ev h; simp only [demoNosv, List.mem_cons, List.not_mem_nil, or_false] at h
-  rcases h with h | h | h | h | h | h | h | h | h | h | h | h | h | h <;> subst h <;> simp [Ev.clean, Cfg.nosv, Model.cfg]
+  rcases h with h | h | h | h | h | h | h | h | h | h | h | h | h | h <;> subst h <;> simp [Ev.clean, Cfg.nosv, Model.cfg, Ovni.Generated.Nosv.stTaskBody]
 /-- the view while body 1 of task 9 runs on thread 0 (rank 2 shows as 3), and after it paused -/
 example : (match Emu.run .nosv P0 Emu.init (demoNosv.take 4) with
     | .ok ε => ε.ch 0 | .error _ => Chans.null) = ⟨some 9, some (gidOf 123456), some 1, some 7, some 3⟩ := by decide
